@@ -32,7 +32,7 @@ SameSet(a, b) == SeqToSet(a) = SeqToSet(b)
 (* which property a step's deliveries are judged under *)
 PropOf(e) ==
   CASE e.op \in {"chat", "invitenew", "invite", "reject", "join", "leave", "subject"} -> "C12"
-    [] e.op \in {"connect", "kick", "banadd", "wait", "expire", "restart"} -> "C17"
+    [] e.op \in {"connect", "dial", "handshake", "kick", "banadd", "wait", "expire", "restart"} -> "C17"
     [] e.op = "login" /\ ~PwMatches(e) -> "C04"
     [] e.op \in {"loginbegin", "loginend"} -> "C04"
     [] e.op = "chatstorm" -> "C12"
@@ -76,15 +76,22 @@ StepEv ==
                    okClosed == SeqToSet(e.closed) = {c \in Conns : conn[c].ph # "closed" /\ conn'[c].ph = "closed"}
                    okState == e.op = "rawfail" => ~e.stateChanged
                    okChurn == e.op = "churn" => Len(e.dup) = 0
+                   (* C04 "that account's current password": what the stored credentials accept (e.matches, computed
+                      by the harness from the account file) is what the history made the account's password (the
+                      model's accts[..].pw: the initial one or the last one set through the protocol).  Not judged
+                      for the account whose stored hash is deliberately unusable. *)
+                   okCred == (e.op \in {"login", "loginbegin"} /\ "matches" \in DOMAIN e /\ "pw" \in DOMAIN e /\ "login" \in DOMAIN e /\ LoginName(e) \in DOMAIN accts /\ LoginName(e) # "brk")
+                               => (e.matches = (accts[LoginName(e)].pw = e.pw))
                    unsettled == "unsettled" \in DOMAIN e
-                   bad == ~okDeliv \/ dupId \/ ~okClosed \/ ~okBan \/ ~okState \/ ~okChurn \/ ~okStorm
+                   pp == IF dupId THEN "C13" ELSE IF ~okCred THEN "C04" ELSE p
+                   bad == ~okDeliv \/ dupId \/ ~okClosed \/ ~okBan \/ ~okState \/ ~okChurn \/ ~okStorm \/ ~okCred
                IN /\ (unsettled /\ ~dupId => Report("DRIFT", p, e, "a connection did not answer its keep-alive"))
-                  /\ (bad /\ OnceOK(IF dupId THEN "C13" ELSE p, e) =>
-                        Report("VIOL", IF dupId THEN "C13" ELSE p, e,
+                  /\ (bad /\ OnceOK(pp, e) =>
+                        Report("VIOL", pp, e,
                                [expected |-> out', dupId |-> dupId, okDeliv |-> okDeliv, okClosed |-> okClosed,
-                                okBan |-> okBan, okState |-> okState, okChurn |-> okChurn, okStorm |-> okStorm,
+                                okBan |-> okBan, okState |-> okState, okChurn |-> okChurn, okStorm |-> okStorm, okCred |-> okCred,
                                 expClosed |-> {c \in Conns : conn[c].ph # "closed" /\ conn'[c].ph = "closed"}]))
-                  /\ seen' = IF bad THEN seen \cup {<<e.run, IF dupId THEN "C13" ELSE p>>} ELSE seen
+                  /\ seen' = IF bad THEN seen \cup {<<e.run, pp>>} ELSE seen
 
 Next == /\ l <= Len(Log)
         /\ (World \/ StepEv)
